@@ -489,7 +489,9 @@ class _CallableStats:
 def _fresh_sweep_impl(env, mi, cls_name, n, steps, autosave_dt, fs, trace):
     T = env.torch
     impl = object.__new__(getattr(mi, cls_name))
-    impl.config = types.SimpleNamespace(autosave_dt=autosave_dt, precision=1e-5)
+    from harness.mpscommon import mps_config
+
+    impl.config = mps_config(autosave_dt=autosave_dt)
     impl.qubit_count = n
     impl.timestep_count = steps
     impl.target_times = [10.0 * k for k in range(steps + 1)]
